@@ -137,7 +137,7 @@ PROPS = {
         'lean_modules': ['C08', 'C04', 'C08Cuckoo', 'C08TopK', 'C08Bucket', 'C08ZSet'],
         'required_theorems': ['C08_cuckoo_until_kick', 'C08_topk_no_tie_equal', 'C08_topk_history', 'C08_bucket_add', 'C08_bucket_remove', 'C08_bucket_lookup', 'C08_topk_insert_cmds', 'C08_cms_update', 'C08_cms_count', 'C08_cms_merge', 'C08_hll_update', 'C08_hll_merge', 'C08_bloom_insert', 'C08_bloom_lookup',
                               'C04_mem_refines_spec', 'C04_redis_refines_spec'],
-        'suites': ['lockstep', 'redistie', 'cms', 'hll', 'bloom', 'topk', 'redisconc'],
+        'suites': ['lockstep', 'redistie', 'cms', 'hll', 'bloom', 'topk', 'redisconc', 'luatie'],
         'level': 'proof',
         'explanation': 'Lean: the Redis-level models (store, commands, the Lua scripts transcribed) of Count-Min, HyperLogLog and Bloom are proved to simulate the in-memory models step for step (same answers, same abstract state); '
                        'both Top-K variants refine one specification (equal up to ties at the minimum); for cuckoo both bucket kinds satisfy the same bucket laws (C02/C13). '
